@@ -166,12 +166,21 @@ func genC12(c *Ctx) {
 		c.emit("urlset.sanitized", []string{s}, r, nontrivial(s, r), class)
 	}
 	// long candidates: any window or cap on the vetted URL must not let an unsafe tail through
-	for _, n := range []int{4095, 4096, 4097, 8191, 8192, 8193, 9000, 16384, 70000} {
+	// (the Lean model and oracle are quadratic in the candidate length: the quick tier stops at 9000 bytes and uses two
+	// tails per size, the thorough tier goes to 70000 with every tail)
+	sizes, tails := []int{4096, 4097, 8192, 8193, 9000}, []string{":javascript:alert(1)", "&#58;z"}
+	if c.thorough {
+		sizes = []int{4095, 4096, 4097, 8191, 8192, 8193, 9000, 16384, 70000}
+		tails = []string{"&x=1", "_:y", ":javascript:alert(1)", "&colon;z", "&#58;z", ""}
+	}
+	for _, n := range sizes {
 		head := strings.Repeat("QUJD", n/4+1)[:n]
-		for _, tail := range []string{"&x=1", "_:y", ":javascript:alert(1)", "&colon;z", "&#58;z", ""} {
-			do(head+tail+" 2x", "long-candidate")
+		for ti, tail := range tails {
 			do("a.png 1x, "+head+tail+" 2x", "long-candidate")
-			do(head+tail, "long-candidate")
+			if c.thorough || ti == 0 {
+				do(head+tail+" 2x", "long-candidate")
+				do(head+tail, "long-candidate")
+			}
 		}
 	}
 	pf := func(s, class string) {
